@@ -26,6 +26,8 @@ def check(prog, rep):
     Z.check_cursors(rep, dask_side, 'C03', entry)
     Z.check_unique_zones(prog, rep, dask_side, entry)
     Z.check_index_space(prog, rep, allf, entry)
+    Z.check_flatten_order(prog, rep, allf, entry)
+    Z.check_positional_id_use(prog, rep, allf, entry)
     rep.floor('Z6a', 10)
     rep.floor('Z6b', 6)
     rep.floor('Z6c', 3)
